@@ -617,6 +617,86 @@ def extract_to_str(repo, consts):
 # features / cfg gates
 # ------------------------------------------------------------------------------------------
 
+FEATS = ["alloc", "std", "to_str"]
+
+
+def parse_cfg_pred(text):
+    """cfg predicate -> nested tuple: ('feat', i) | ('not', p) | ('all', [..]) | ('any', [..]) | ('other', text)"""
+    toks = tokenize(text)
+    pos = [0]
+
+    def peek():
+        return toks[pos[0]] if pos[0] < len(toks) else ("eof", "")
+
+    def eat(v=None):
+        t = peek()
+        if v is not None and t[1] != v:
+            raise TranslateError("cfg predicate: expected %r in %r" % (v, text))
+        pos[0] += 1
+        return t
+
+    def pred():
+        k, v = eat()
+        if v == "feature":
+            eat("=")
+            name = eval(eat()[1])
+            if name not in FEATS:
+                raise TranslateError("unknown feature %r in cfg" % name)
+            return ("feat", FEATS.index(name))
+        if v in ("not", "all", "any"):
+            eat("(")
+            args = []
+            while peek()[1] != ")":
+                args.append(pred())
+                if peek()[1] == ",":
+                    eat(",")
+            eat(")")
+            if v == "not":
+                if len(args) != 1:
+                    raise TranslateError("not() with %d args" % len(args))
+                return ("not", args[0])
+            return (v, args)
+        if v == "test":
+            return ("test",)
+        # target_endian = "little", etc.: opaque
+        rest = v
+        if peek()[1] == "=":
+            eat("=")
+            rest += "=" + eat()[1]
+        return ("other", rest)
+
+    p = pred()
+    return p
+
+
+def item_extent(src, start):
+    """extent [start, end) of the item that begins at `start` (after its attributes)"""
+    depth = 0
+    i = start
+    n = len(src)
+    head = src[start:start + 80].lstrip()
+    block_item = re.match(r"(pub(\([a-z]+\))?\s+)?(unsafe\s+|const\s+|async\s+)*(fn|impl|struct|enum|mod|trait|union)\b", head) is not None
+    while i < n:
+        c = src[i]
+        if c in "({[":
+            depth += 1
+        elif c in ")}]":
+            if depth == 0:
+                return i
+            depth -= 1
+            if depth == 0 and c == "}":
+                return i + 1
+        elif c == ";" and depth == 0:
+            return i + 1
+        elif c == "," and depth == 0 and not block_item:
+            return i + 1
+        i += 1
+    return n
+
+
+HEAP_NAMES = re.compile(r"\b(String|Vec|HashMap|Box)\b|\bformat!|\bvec!|\.to_string\(\)")
+
+
 def extract_features(repo):
     cargo = open(os.path.join(repo, "Cargo.toml")).read()
     m = re.search(r"^\[features\]\s*$(.*?)(?=^\[|\Z)", cargo, re.M | re.S)
@@ -627,31 +707,106 @@ def extract_features(repo):
             fm = re.fullmatch(r"([\w-]+)\s*=\s*\[(.*)\]", line)
             if fm:
                 feats[fm.group(1)] = [x.strip().strip('"') for x in fm.group(2).split(",") if x.strip()]
+    for f in FEATS:
+        if f not in feats:
+            raise TranslateError("feature %s missing from Cargo.toml" % f)
+    extra = [f for f in feats if f not in FEATS and f != "default"]
+    if extra:
+        raise TranslateError("new cargo feature(s) %s: extend the cfg model" % extra)
     dm = re.search(r"^\[dependencies\]\s*$(.*?)(?=^\[|\Z)", cargo, re.M | re.S)
-    deps = [l.split("=")[0].strip() for l in (dm.group(1).splitlines() if dm else [])
-            if l.split("#")[0].strip()]
-    gates = []
+    deps = [l.split("=")[0].strip() for l in (dm.group(1).splitlines() if dm else []) if l.split("#")[0].strip()]
+    lib = read_src(repo, "lib.rs")
+    # crate attributes
+    crate_no_std = None
+    for cm in re.finditer(r"#!\[cfg_attr\((.*)\)\]", lib):
+        inner = cm.group(1)
+        k = inner.rfind(",")
+        if inner[k + 1:].strip() == "no_std":
+            crate_no_std = parse_cfg_pred(inner[:k])
+    unconditional_no_std = bool(re.search(r"#!\[no_std\]", lib))
+    # extern crate alloc / std
+    externs = []
+    for em in re.finditer(r"((?:#\[cfg\((?:[^\[\]])*\)\]\s*)*)extern\s+crate\s+(\w+)\s*;", lib):
+        gates = [parse_cfg_pred(g) for g in re.findall(r"#\[cfg\(((?:[^\[\]])*)\)\]", em.group(1))]
+        externs.append((em.group(2), gates))
+    # module gates
+    mod_gates = {}
+    for mm in re.finditer(r"((?:#\[cfg\((?:[^\[\]])*\)\]\s*)*)(?:pub\s+)?mod\s+(\w+)\s*;", lib):
+        mod_gates[mm.group(2) + ".rs"] = [parse_cfg_pred(g) for g in re.findall(r"#\[cfg\(((?:[^\[\]])*)\)\]", mm.group(1))]
+    usages = []
     srcdir = os.path.join(repo, "src")
     for fname in sorted(os.listdir(srcdir)):
         if not fname.endswith(".rs"):
             continue
         src = read_src(repo, fname)
-        for gm in re.finditer(r"#(!?)\[(cfg|cfg_attr)\(((?:[^()\[\]]|\((?:[^()]|\([^()]*\))*\))*)\)\]\s*([^\n]*)", src):
-            inner, kind, pred, nxt = gm.group(1), gm.group(2), gm.group(3).strip(), gm.group(4).strip()
-            gates.append({"file": fname, "inner": bool(inner), "kind": kind, "pred": pred,
-                          "item": nxt[:80]})
-        # uses of std/alloc
-    uses = []
-    for fname in sorted(os.listdir(srcdir)):
-        if not fname.endswith(".rs"):
-            continue
-        src = read_src(repo, fname)
+        # attributed regions
+        regions = []
+        for am in re.finditer(r"(?:#\[cfg\((?:[^\[\]])*\)\]\s*)+", src):
+            preds = [parse_cfg_pred(g) for g in re.findall(r"#\[cfg\(((?:[^\[\]])*)\)\]", am.group(0))]
+            # skip other attributes / doc between cfg and the item
+            st = am.end()
+            while True:
+                m2 = re.match(r"\s*#\[[^\]]*\]\s*", src[st:])
+                if not m2:
+                    break
+                st += m2.end()
+            regions.append((am.start(), item_extent(src, st), preds))
+        base = mod_gates.get(fname, [])
+        found = []
         for um in re.finditer(r"\b(std|alloc)::", src):
-            line_start = src.rfind("\n", 0, um.start()) + 1
-            line_end = src.find("\n", um.end())
-            uses.append({"file": fname, "crate": um.group(1),
-                         "line": src[line_start:line_end].strip()[:100]})
-    return {"features": feats, "dependencies": deps, "gates": gates, "uses": uses}
+            found.append((um.start(), um.group(1)))
+        for hm in HEAP_NAMES.finditer(src):
+            found.append((hm.start(), "heap"))
+        for pos_, kind in found:
+            gates = list(base)
+            for a, e, preds in regions:
+                if a <= pos_ < e:
+                    gates.extend(preds)
+            ls = src.rfind("\n", 0, pos_) + 1
+            le = src.find("\n", pos_)
+            usages.append({"file": fname, "kind": kind, "gates": gates, "line": src[ls:le].strip()[:90]})
+    return {"features": feats, "dependencies": deps, "crate_no_std": crate_no_std,
+            "unconditional_no_std": unconditional_no_std, "externs": externs, "usages": usages,
+            "mod_gates": mod_gates}
+
+
+def lean_pred(p):
+    k = p[0]
+    if k == "feat":
+        return "(.feat %d)" % p[1]
+    if k == "not":
+        return "(.not %s)" % lean_pred(p[1])
+    if k in ("all", "any"):
+        return "(.%s [%s])" % (k, ", ".join(lean_pred(x) for x in p[1]))
+    if k == "test":
+        return "(.test)"
+    return "(.other)"
+
+
+def emit_features(ft):
+    L = [HEADER, "import ElfVerif.Model.Cfg\nnamespace Elf.Gen\n"]
+    L.append("/-- [features] of Cargo.toml: feature index (0 alloc, 1 std, 2 to_str) -> implied features -/")
+    L.append("def featureImplies : List (Nat × List Nat) := [%s]" % ", ".join(
+        "(%d, [%s])" % (FEATS.index(f), ", ".join(str(FEATS.index(x)) for x in ft["features"][f] if x in FEATS)) for f in FEATS))
+    L.append("def defaultFeatures : List Nat := [%s]" % ", ".join(str(FEATS.index(x)) for x in ft["features"].get("default", []) if x in FEATS))
+    L.append("def externalDependencies : Nat := %d" % len(ft["dependencies"]))
+    L.append("/-- `#![cfg_attr(P, no_std)]`: the crate is no_std iff P (none = never, unless unconditional) -/")
+    L.append("def crateNoStd : Option Cfg.Pred := %s" % ("some " + lean_pred(ft["crate_no_std"]) if ft["crate_no_std"] else "none"))
+    L.append("def unconditionalNoStd : Bool := %s" % ("true" if ft["unconditional_no_std"] else "false"))
+    L.append("/-- `extern crate X;` items with their gates: (0 alloc | 1 std, gates) -/")
+    L.append("def externCrates : List (Nat × List Cfg.Pred) := [%s]" % ", ".join(
+        "(%d, [%s])" % (0 if n == "alloc" else 1, ", ".join(lean_pred(g) for g in gs)) for n, gs in ft["externs"] if n in ("alloc", "std")))
+    L.append("/-- every use of a `std::` path (1), an `alloc::` path (0) or a heap-allocating name (2) in non-test code,")
+    L.append("    with all cfg gates of the items enclosing it -/")
+    L.append("def usages : List (Nat × List Cfg.Pred) := [")
+    rows = []
+    for u in ft["usages"]:
+        kind = {"alloc": 0, "std": 1, "heap": 2}[u["kind"]]
+        rows.append("  (%d, [%s]) /- %s: %s -/" % (kind, ", ".join(lean_pred(g) for g in u["gates"]), u["file"],
+                                                    u["line"].replace("-/", "- /").replace("/-", "/ -")))
+    L.append(",\n".join(rows))
+    L.append("]\n\nend Elf.Gen\n")
+    return "\n".join(L)
 
 
 # ------------------------------------------------------------------------------------------
@@ -878,6 +1033,7 @@ def main():
         ("ParseProgs.lean", emit_progs(progs, sizes, tail, tail_sizes)),
         ("CStructs.lean", emit_cstructs(structs, consts)),
         ("ToStr.lean", emit_to_str(to_str)),
+        ("Features.lean", emit_features(feats)),
     ]:
         if write_if_changed(os.path.join(args.out, fname), content):
             changed.append(fname)
@@ -893,7 +1049,8 @@ def main():
                                               "align": ctype_size_align(ty, consts)[1]}
                                              for fn, ty in fs], "file": fl} for n, fs, fl in structs],
         "to_str": to_str,
-        "features": feats,
+        "features": {"features": feats["features"], "dependencies": feats["dependencies"],
+                     "usages": [{"file": u["file"], "kind": u["kind"], "line": u["line"], "gates": repr(u["gates"])} for u in feats["usages"]]},
         "changed": changed,
     }
     if args.json:
